@@ -29,6 +29,7 @@ type StreamConn struct {
 	rEOF     bool // peer's FIN delivered
 	rRST     bool // reset received or sent
 	closed   bool // local Close
+	closedAt time.Duration
 	wclosed  bool // local CloseWrite
 	rdl, wdl time.Time
 
@@ -387,6 +388,18 @@ func (c *StreamConn) finDelay() time.Duration {
 	return at - s.Now()
 }
 
+// PeerClosedAt is when the other end closed its socket (known to the
+// simulated network at once, to this end only when the FIN or RST arrives).
+func (c *StreamConn) PeerClosedAt() (time.Duration, bool) {
+	p := c.peer
+	if p == nil {
+		return 0, false
+	}
+	p.mu.Lock()
+	defer p.mu.Unlock()
+	return p.closedAt, p.closed
+}
+
 // Close closes the socket. Unread inbound data turns the FIN into a reset,
 // as on Linux.
 func (c *StreamConn) Close() error {
@@ -396,6 +409,7 @@ func (c *StreamConn) Close() error {
 		return opErr("close", c.network, net.ErrClosed)
 	}
 	c.closed = true
+	c.closedAt = c.w.S.Now()
 	unread := len(c.rbuf) > 0
 	c.rbuf = nil
 	wasW := c.wclosed
